@@ -84,6 +84,22 @@ Flush(c) ==
 
 FlushUnknown == UNCHANGED vars
 
+\* disconnection of c whose listeners, while they are being notified of it, submit n more
+\* packets on c (a last response, a notification that was being prepared).  c is going away:
+\* whether such a packet is still handed to the controller is left free (j of the n are, and
+\* only into buffers that are free - c's own buffers are being released), but when the
+\* disconnection has been processed NOTHING of c is waiting or in flight any more: the
+\* controller never reports a completion for a handle that is gone, so a buffer still
+\* accounted to c would be lost to the other connections for good.
+FlushNotified(c, n, j) ==
+    /\ c \in Conns /\ n >= 1 /\ queued + n <= MaxPkts
+    /\ j \in 0..n /\ j + Total(inflight) - inflight[c] <= Bufs
+    /\ enq' = [enq EXCEPT ![c] = @ + n]
+    /\ queued' = queued + n
+    /\ completed' = completed + Len(WaitingOf(waiting, c)) + inflight[c] + n
+    /\ Commit(SelectSeq(waiting, LAMBDA p : p.c # c), [inflight EXCEPT ![c] = 0],
+              sentLog \o [i \in 1..j |-> [c |-> c, k |-> enq[c] + i]])
+
 DrainCall(c) ==
     /\ c \in All /\ drain[c] = "none"
     /\ drain' = [drain EXCEPT ![c] = IF PendingOf(waiting, inflight, c) = 0 THEN "done" ELSE "waiting"]
@@ -98,6 +114,10 @@ Next == \/ \E c \in Conns : Enqueue(c) \/ Flush(c) \/ (\E n \in 0..MaxReport : C
         \/ \E c \in All : DrainCall(c) \/ DrainCollect(c)
 
 Spec == Init /\ [][Next]_vars
+
+\* the same with disconnections whose listeners still submit packets (at most 2 per disconnection)
+NextN == Next \/ \E c \in Conns, n \in 1..2 : \E j \in 0..n : FlushNotified(c, n, j)
+SpecN == Init /\ [][NextN]_vars
 
 -----------------------------------------------------------------------------
 TypeOK == /\ inflight \in [Conns -> 0..Bufs]
